@@ -12,6 +12,8 @@ open PdModel.Syncer PdModel.HistoryBuf PdModel.Spec
 #print axioms full_sync_into_follower
 #print axioms incremental_sync_follower_eq_leader
 #print axioms broadcast_messages_exact
+#print axioms merged_broadcast_exact
+#print axioms leaderPutsMsgs_square
 #print axioms broadcast_follower_eq_leader
 #print axioms full_sync_unfixed_counterexample
 #print axioms history_sections_locked
